@@ -178,9 +178,9 @@ Proof.
   destruct (reachable_WF _ Hr) as [H _]. destruct (H P HPall) as [[_ [_ Hnames]] _].
   destruct (Hnames _ _ Hin) as [Ek _].
   assert (Hk : In k (keys P)) by (apply in_keys; eauto).
-  intro Hc. rewrite <- Ek in Hc. subst k.
+  intro Hc. rewrite <- Ek in Hc. subst k. rewrite Hc in Hk.
   destruct HP as [HP|[[Hs HP]|HP]].
-  - subst P. contradiction.
+  - subst P. apply Hself. exact Hk.
   - apply (Hanc Hs P HP). exact Hk.
   - apply (Hoth P HP). exact Hk.
 Qed.
@@ -241,7 +241,7 @@ Definition is_merge (o : op) : bool := match o with OMerge _ _ _ => true | _ => 
 Theorem rejected_unchanged_nonmerge_ : forall st o st' e,
     is_merge o = false -> step st o = (st', RErr e) -> st' = st.
 Proof.
-  intros st o st' e Hm H. destruct o; simpl in Hm; try discriminate; simpl in H.
+  intros st o st' e Hm H. destruct o; simpl in Hm; try discriminate Hm; simpl in H.
   - destruct (get_table st t); [|inversion H; reflexivity].
     destruct (negb (spec_ok _ _)); [inversion H; reflexivity|].
     match type of H with (match ?X with _ => _ end) = _ => destruct X end; inversion H; reflexivity.
@@ -281,10 +281,10 @@ Proof.
     assert (Hk : has_key (normalize (s_name (hget (st_heap st) old)))
                          (del_key (normalize (s_name (hget (st_heap st) old))) (t_syms T)) = false).
     { apply has_key_false. intro Hc. apply del_key_keys in Hc as [_ Hc]. apply Hc. reflexivity. }
-    rewrite Hk in H. simpl in H. inversion H.
+    rewrite Hk in H. simpl in H. discriminate H.
   - destruct (get_table st t); [|inversion H; reflexivity].
     destruct (validate_arg_list _ _); inversion H; reflexivity.
-  - inversion H.
+  - discriminate H.
   - destruct (nth_error (st_slots st) i) as [[T|]|]; inversion H; reflexivity.
   - destruct (nth_error (st_det st) j) as [T|]; [|inversion H; reflexivity].
     destruct (nth_error (st_slots st) i) as [[T0|]|]; inversion H; reflexivity.
